@@ -81,7 +81,7 @@ Lemma num_stats_of_spec fl v :
   exists m s2,
     s_mean (num_stats_of fl) = Some m /\ (m == qmean v)%Q /\
     s_var (num_stats_of fl) = Some s2 /\ (s2 == qvar v)%Q /\
-    s_quant (num_stats_of fl) = map (fun q => Some q) (five_quantiles v).
+    s_quant (num_stats_of fl) = map (fun q => Some (Qred q)) (five_quantiles v).
 Proof.
   intros E Hne. unfold num_stats_of, stat_mean, stat_var, stat_quantiles; simpl. rewrite E.
   destruct v as [|x r]; [congruence|].
@@ -470,7 +470,7 @@ Proof.
     intros c Hc. eapply sorted_last_max; eauto.
   - unfold stat_median in M. rewrite (Permutation_length P) in M.
     destruct (nth_error ser (length (present cells) / 2)) as [cm|] eqn:E; simpl in M; [|discriminate].
-    inversion M; subst. exists cm. split; reflexivity.
+    inversion M; subst. exists cm. split; [exact E|reflexivity].
   - unfold stat_year_range, obind in Y.
     destruct (mapM year_of ser) as [ys|] eqn:YS; [|discriminate].
     destruct ys as [|y0 yr']; [discriminate|]. inversion Y; subst yr; clear Y.
